@@ -385,8 +385,16 @@ def observe(b, rec, root_dir, obs):
         if k == "store":
             out[label] = copy.deepcopy(el.context)
         elif k == "ucfs":
-            res = list(el.run(iter([(0, {})])))
-            out[label] = res[0][1]
+            # two probe values; the consumer changes the context of the first one in place at
+            # every level before it asks for the second (what a downstream MakeFilename or
+            # UpdateContext does): the second one must still receive the static context
+            stream = el.run(iter([(0, {}), (1, {})]))
+            first = next(stream)
+            snap1 = copy.deepcopy(first[1])
+            _poison(first[1])
+            second = next(stream)
+            obs.count("ucfs_probe_pairs")
+            out[label] = copy.deepcopy(second[1]) if second[1] != snap1 else snap1
         elif k == "mkfn":
             res = el((0, copy.deepcopy(M.MKFN_PROBE_CONTEXT)))
             if isinstance(res, tuple) and len(res) == 2 and isinstance(res[1], dict):
@@ -412,6 +420,16 @@ def observe(b, rec, root_dir, obs):
                 out[label] = ["opened", sorted(set(os.path.relpath(p, root_dir)
                                                    for p in opened))]
     return out
+
+
+def _poison(ctx):
+    """In-place change of every dictionary and list reachable from *ctx*."""
+    from rv.monitors import identity
+    for o in list(identity.mutable_ids(ctx).values()):
+        if isinstance(o, dict):
+            o["__touched_downstream__"] = 1
+        elif isinstance(o, list):
+            o.append("__touched_downstream__")
 
 
 def _experiment(tree, label, ctxinfo, transform):
@@ -741,9 +759,17 @@ def _case(r, obs, tmp):
     audit.start(prefix=rdir)
     try:
         if tree[0] == "source":
-            got = list(B.root())
+            stream = B.root()
         else:
-            got = list(B.root.run(iter(_flow(flow_r))))
+            stream = B.root.run(iter(_flow(flow_r)))
+        # streaming consumer: keeps a snapshot of every value as received, then changes the
+        # received context in place at every level before pulling the next value
+        got = []
+        for val in stream:
+            got.append(copy.deepcopy(val))
+            if isinstance(val, tuple) and len(val) == 2 and isinstance(val[1], dict):
+                _poison(val[1])
+                obs.count("run_contexts_changed_in_place_by_consumer")
     finally:
         log = audit.stop()
     ncache = sum(1 for _, it in M.leaves(tree) if it[0] == "cache")
